@@ -90,6 +90,8 @@ def spec_parallel(drv, jobs=4):
 
 def nontrivial(req, ans):
     k = req.split(" ", 1)[0]
+    if k == "tgate":
+        return True
     if k in ("conj", "isstab", "count", "new", "words"):
         return False
     # an operation that returned on a tableau with at least one non-diagonal generator, or any panic / error
@@ -117,11 +119,17 @@ SPEC = {
             "13 gates x every ordered tuple of distinct qubits, measure, collapse after Random, reset, words, and the range-level users "
             "StabilizerState::peek_all_into (48 shots) and measure (1 shot); (4) 250/1500 random tableaux of 3..12 and 33..70 qubits "
             "(arbitrary cells and scrambled valid ones; packing across several u64 words); (5) 60/400 random Clifford circuits with "
-            "measure+collapse and reset on 5..8 qubits and 1/6 on 65..68 qubits, step by step. (A) Display text / MeasurementInfo / "
+            "measure+collapse and reset on 5..8 qubits and 1/6 on 65..68 qubits, step by step; (6) 44 Clifford-only COMBINATOR gates through "
+            "the real apply_gate (Composite built with add_gate and with from_string, sub-gates on ascending / descending / non-adjacent "
+            "operands, CX CY CZ Swap and all one-qubit gates, nesting depth 2; Kron in both factor orders and mixed arities, nested; Loop "
+            "with 0..4 iterations) on every placement of every stabilizer state for n <= 2, of every state for n = 3 (arity <= 2 terms rotate "
+            "over the states in quick), every 24th state for n = 4 (thorough); model side = tableau model driven by Model/Conj.lean "
+            "conjugateT; measure followed by collapse with the index the code itself reported (mcollapse). (A) Display text / MeasurementInfo / "
             "panic site / error constructor equal the Lean model's; where the code draws random numbers the answer must be one the model "
             "allows. (B) for every request whose tableau describes a stabilizer state of <= 8 qubits (independent commuting rows; the "
             "exact state is computed over Z[zeta_8] by the projector method): the answer tableau must stabilize the exact state-vector "
-            "result and be in reduced echelon form, det/rnd must match the block norms, peek_all words must have non-zero amplitude. "
+            "result and be in reduced echelon form, det/rnd must match the block norms, peek_all words must have non-zero amplitude; for a combinator "
+            "term the exact result is (Spec.specMatrix of the term over Q(zeta_8), Spec.embed on the placement) * state. "
             "Non-trivial = request on a tableau with an X or Y generator that returned, or any error/panic; distinct = distinct request line.",
     "exhaustive": False,
 }
